@@ -469,8 +469,16 @@ class String(FieldValidator[_P, str], Generic[_P]):
 
         if _VALIDATION_ENABLED.get():
             self.validate_one(value)
-        # pad with NULs so that no bytes of a previous, longer value survive after the terminator
-        setattr(obj, self._private_name, value.encode("ascii").ljust(self.len, b"\x00"))
+        data = value.encode("ascii")
+        setattr(obj, self._private_name, data)
+        # ctypes copies len(data) + 1 bytes only: clear what a previous, longer value left behind
+        field = getattr(type(obj), self._private_name)
+        if len(data) < field.size:
+            ctypes.memset(
+                ctypes.addressof(obj) + field.offset + len(data),
+                0,
+                field.size - len(data),
+            )
 
     def validate_one(self, value: str):
         """Validate a string value
